@@ -34,9 +34,11 @@ impl<H: Hal, T: Transport> VirtIO9p<H, T> {
             features.contains(Feature::RING_EVENT_IDX),
             features.contains(Feature::ACCESS_PLATFORM),
         )?;
-        transport.finish_init();
-
+        // Read the mount tag before setting DRIVER_OK, so that a failure here doesn't free the queue's
+        // memory while the device may already be using it.
         let mount_tag = read_mount_tag(&transport)?;
+
+        transport.finish_init();
 
         Ok(Self {
             transport,
